@@ -183,6 +183,23 @@ def list_jobs(binary, tier):
     return [l.strip() for l in p.stdout.splitlines() if l.strip()]
 
 
+def _child_limits(cpu_seconds):
+    """runs in the child before exec: die with the driver (an orphaned job once span 10 CPU-hours after its
+    driver had been killed by an outer `timeout`) and never use more CPU than twice the wall-clock limit"""
+    def fn():
+        try:
+            import ctypes
+            ctypes.CDLL(None).prctl(1, 9)  # PR_SET_PDEATHSIG, SIGKILL
+        except Exception:
+            pass
+        try:
+            import resource
+            resource.setrlimit(resource.RLIMIT_CPU, (cpu_seconds, cpu_seconds))
+        except Exception:
+            pass
+    return fn
+
+
 def run_job(binary, run, job, tier, pid, outdir, only=(), deadline=None):
     tag = "%s.%s" % (os.path.basename(binary), re.sub(r"[^A-Za-z0-9_.-]", "_", job))
     out = os.path.join(outdir, tag + ".json")
@@ -200,7 +217,8 @@ def run_job(binary, run, job, tier, pid, outdir, only=(), deadline=None):
     status = "ok"
     try:
         with open(errp, "w") as ef:
-            p = subprocess.run(cmd, stdout=ef, stderr=subprocess.STDOUT, env=env, timeout=HARDKILL[tier])
+            p = subprocess.run(cmd, stdout=ef, stderr=subprocess.STDOUT, env=env, timeout=HARDKILL[tier],
+                               preexec_fn=_child_limits(2 * HARDKILL[tier]))
         if p.returncode != 0:
             status = "exit %d" % p.returncode
     except subprocess.TimeoutExpired:
